@@ -70,6 +70,11 @@ def script_hash(lines):
 def gen_family(fam, feats, seed, n, outdir, length=None):
     """Write n seeded scripts of one family; returns list of paths and the op-kind distribution."""
     paths, dist = [], {}
+    mode = None
+    if ":" in fam:
+        # "<family>:<mode>": the same seeded scripts with a `mode <mode>` header (e.g. every operation
+        # routed through the type-erased handles)
+        fam, mode = fam.split(":", 1)
     if fam == "exh":
         # bounded-exhaustive: n is the length of the action sequences (not a count)
         for i, lines in enumerate(gen.exhaustive_scripts(n, feats)):
@@ -78,8 +83,18 @@ def gen_family(fam, feats, seed, n, outdir, length=None):
                 f.write("\n".join(lines) + "\n")
             paths.append(p)
         return paths, {"exhaustive_length": n, "exhaustive_scripts": len(paths)}
+    if fam == "endings":
+        # enumerated: every (on_run history, messages, cause, on_stop outcome); n is not a count
+        for i, lines in enumerate(gen.endings_scripts(feats)):
+            p = os.path.join(outdir, "endings_%04d.scn" % i)
+            with open(p, "w") as f:
+                f.write("\n".join(lines) + "\n")
+            paths.append(p)
+        return paths, {"endings_scripts": len(paths)}
     for i in range(n):
         lines, stats = gen.gen_script(seed * 100003 + i * 7919 + hash_fam(fam), fam, length=length, feats=feats)
+        if mode:
+            lines = [lines[0], "mode " + mode] + lines[1:]
         p = os.path.join(outdir, "%s_%05d.scn" % (fam, i))
         with open(p, "w") as f:
             f.write("\n".join(lines) + "\n")
@@ -116,6 +131,8 @@ def run_family_set(pid, cfg, tier, seed):
         if fam == "exh":
             # sequences of length n in the quick tier, n + 1 in the thorough tier
             n, n_scale = (n + 1 if tier == "thorough" else n), 1
+        if fam == "endings":
+            n_scale = 1
         feats = tuple(sorted(feats))
         key = hashlib.sha256(json.dumps([vlib.repo_hash(), vlib.harness_hash(), vlib.hash_files([gen.__file__]),
                                          fam, feats, seed, n * n_scale, tier,
@@ -411,7 +428,7 @@ def main():
         # (same families, doubled budget, another seed), judged by the monitors alone
         cfg2 = dict(cfg)
         # (for the bounded-exhaustive family n is a sequence length: one longer, not twice as long)
-        cfg2["families"] = [(f, ft, n + 1 if f == "exh" else n * 2) for (f, ft, n) in cfg["families"]]
+        cfg2["families"] = [(f, ft, n + 1 if f == "exh" else n if f == "endings" else n * 2) for (f, ft, n) in cfg["families"]]
         runs2, _ = run_family_set(pid, cfg2, tier, seed + 7777)
         for r in runs2:
             mf = monitor_failures(pid, cfg, r["script"])
